@@ -151,9 +151,11 @@ SPEC = {
                   "preprocess.rs) is total, its measure guards never fire and the non-advancing `continue` of find_single_macro is "
                   "unreachable; REFINEMENT: whenever a token list has a tame expansion (Lemmas.MacroTame.Tame; decided by the "
                   "executable tameRun) the model's result and the reference C algorithm (Spec.CPreMacro.expand, Prosser's hide-set "
-                  "algorithm, for some fuel) yield the same tokens (expand_refines_spec[_decided]): object- and function-like "
-                  "macros, any number of parameters, nested invocations in arguments and replacement lists, parenthesised commas, "
-                  "self- and mutually referential macros; for tables of object-like macros every token list is tame "
+                  "algorithm, for some fuel) yield the same tokens (expand_refines_spec[_decided]; with ## in replacement lists: "
+                  "expand_refines_spec_with_paste[_decided], class TameP decided by tameRunP -- about half of the generated "
+                  "programs): object- and function-like macros, any number of parameters, nested invocations in arguments and "
+                  "replacement lists, parenthesised commas, self- and mutually referential macros, ## between tokens of the "
+                  "replacement list and/or parameters; for tables of object-like macros every token list is tame "
                   "(object_like_refines_spec: object-like macros in full). The side conditions of the class are each shown "
                   "necessary by a witness evaluated in Lean on model and reference (differs_*: line end before '(', unused "
                   "argument, argument repainted, painted name re-invoked, name before a vanished macro, empty argument next to "
@@ -163,7 +165,8 @@ SPEC = {
                   "never holds two entries of a name, lookup = latest #define not followed by #undef, a directive takes effect "
                   "from its line; API defines = #define lines before the first line (every entry file); #include = the file's "
                   "lines between two block boundaries (empty file: one line end); a #pragma once file contributes once. PARTIAL: "
-                  "(a) ## is not inside the refinement class; (b) invocations completed by the text after the end of an "
+                  "(a) of ##: operands or results that are enabled macro names, ## inside the argument list of a nested invocation, "
+                  "empty arguments next to ## lie outside the class; (b) invocations completed by the text after the end of an "
                   "expansion are excluded from the class (universal statement for the model: trailing_function_name_is_invoked; "
                   "agreement with C on witnesses only). The "
                   "correspondence run checks on every generated program that lies in the class (driver op C12.tame) that the real "
@@ -190,7 +193,8 @@ SPEC = {
         "re-run on /repo's working tree every time",
         "hand-written Model/Macro.lean and Model/Include.lean mirror preprocess.rs; tied to the code by the correspondence run only",
         "Spec/CPreMacro.lean: our reading of C11 6.10.3 (Prosser's algorithm) and 6.10.3.5 (scope of definitions); "
-        "Lemmas.MacroTame.Tame / Model.MacroTame.tameRun: the definition of the class of the refinement theorem",
+        "Lemmas.MacroTame.Tame / Lemmas.MacroTameP.TameP / Model.MacroTame.tameRun, tameRunP: the definition of the class of "
+        "the refinement theorems",
         "Model/Lexer.lean (C10's lexer model) for paste_matches_lexer",
         "harness reference preprocessor (Rust) = the oracle of the correspondence run; the lexer is used as given (C10)",
     ],
